@@ -28,8 +28,8 @@ THEOREMS = [
     "C08.replace_frame_all_flags_step", "C08.replace_frame_all_flags_mem",
     "C08.resolveFrom_objs", "C08.nothing_invented_step", "C08.nothing_invented", "C08.nothing_invented_call",
     "C08.replace_nothing_invented_step", "C08.replace_nothing_invented",
-]
-PROOF_IMPORTS = ["BigtreeProofs.Properties.C08"]
+            "C08.find_full_path_printed_multi", "C08.comps_printed_multi"]
+PROOF_IMPORTS = ["BigtreeProofs.Properties.C08", "BigtreeProofs.Properties.C08Multi"]
 FLAGS = ["skippable", "overriding", "merge_children", "merge_leaves", "delete_children", "with_full_path"]
 SK, OV, MC, ML, DC, FP = range(6)
 FNS = ["shift", "copy", "replace", "t2t", "t2treplace"]
@@ -60,7 +60,7 @@ MODELLED = [
 ]
 ASSUMPTIONS = [
     "sibling names are unique and non-empty and contain no character of the separators in use (what Node enforces / what paths need)",
-    "theorems assume a single-character separator; multi-character separators are covered by the correspondence only",
+    "the per-flag theorems assume a single-character separator (frame_all_flags / nothing_invented have no hypothesis on strings; find_full_path_printed_multi / comps_printed_multi give the string layer - printed path -> names -> node - for every non-empty separator); multi-character separators in whole calls are covered by the correspondence only",
     "out of scope (DESIGN §5): to_path=None together with merge_children/merge_leaves; destinations strictly inside the subtree being shifted",
 ]
 
